@@ -45,7 +45,7 @@ add('C13', 'fault_enumeration',
 
 add('C03', 'exploration',
     'Seeded search over histories, fault sequences and configurations: every class exported by ahrs.filters is both streamed on the shared sensor bus (seeded interleaving) and run through its batch constructor over histories with glitch/scale/stuck/dup faults, kicks, magnitudes over decades and exact canonical poses; after every step and on every batch row the output must be one finite real unit quaternion (or proper rotation / finite angle triple) per sample. For the recursive filters this exercises state carried over histories; for single-frame estimators the simulator is only an input source (stated in the evidence).',
-    'Inputs are well-formed by construction, so any exception is a violation; 1e-9 tolerances; 13 open known findings (UKF breakdown; closed-form singularities of SAAM/FAMC/FLAE/FQA/QUEST at exact axis-aligned poses; FLAE symbolic on exactly consistent data) are keyed by component, symptom and an input-feature trigger pattern.',
+    'Inputs are well-formed by construction, so any exception is a violation; 1e-9 tolerances; 22 open known findings (UKF breakdown; EKF covariance overflow at more than a radian per sample; AQUA 0/0 at exact half-turns; closed-form singularities of SAAM/FAMC/FLAE/FQA/QUEST at exact axis-aligned poses; FLAE symbolic on exactly consistent data) are keyed by component, symptom and an input-feature trigger pattern.',
     'deterministic simulation: seeded scheduler + sensor-bus fault injection, per-step validity invariant on real filter instances', 'DESIGN.md section 2 C03')
 
 add('C08', 'exploration',
@@ -70,7 +70,7 @@ add('C19', 'exploration',
 
 add('C05', 'exploration',
     'Bounded liveness by seeded search: a motionless body at a seeded true attitude, exact accelerometer/magnetometer images in each filter\'s own convention, gyro noise only; each recursive filter (Madgwick, Mahony, EKF, UKF, AQUA, ROLEQ streamed; Complementary, FKF batch) is started 0-175 degrees from the truth through the route the class offers (q0, w0, first a-priori quaternion) with default and non-default gains, dt 2-50 ms, NED/ENU; the error history must be below the filter\'s tolerance from the budgeted sample on (eventually-always), end no worse than it started, and the e0=0 twin must stay at the truth.',
-    'Budgets come from a pinned table measured once on the repaired tree (x3 margin); tolerances are fixed formulas; the convention table is an assumption whose standing self-check is the e0=0 twin; cells needing >60000 samples are not exercised; UKF does not converge at all (4 open known findings).',
+    'Budgets come from a pinned table measured once on the repaired tree (x3 margin); tolerances are fixed formulas; the convention table is an assumption whose standing self-check is the e0=0 twin; cells needing >60000 samples are not exercised; UKF does not converge at all and FKF converges erratically (6 open known findings).',
     'deterministic simulation: time-stepped filter nodes against a stub world, bounded-liveness oracle over the recorded error history', 'DESIGN.md section 2 C05')
 
 def build():
